@@ -25,7 +25,8 @@
      {ev:"Reset", VIEWS}
      {ev:"Fill", recs:[[id,n]..], panic, VIEWS}         many WriteSlice/SliceAllocate calls, views once
      {ev:"Sort", between, lo, hi, start, end, cmp, panic, keysBefore:[..], keysAfter:[..], VIEWS}
-   VIEWS = lenNP, lenWP, curSz, mode, fv, vpanic, bytes:[[id,n]..], iter, chain, offs:[int..], offsl
+   VIEWS = lenNP, lenWP, curSz, mode, data0, fv, vpanic, bytes:[[id,n]..], iter, chain, offs:[int..], offsl
+     data0  = len(Data(0)), the length of the backing slice
      fv     = the framed views (iter, chain, offs, offsl) were taken (never in a raw epoch)
      vpanic = one of the read calls panicked
      keysBefore[i] = the comparator's key of the i-th record the harness wrote (from its own payload),
@@ -69,6 +70,7 @@ ViewBad(e, w, k) ==
 
 ViewDrift(e, w, k) ==
      Flag(e.lenWP = e.lenNP + pad, "LenWithPadding - LenNoPadding is not the padding")
+  \cup Flag(e.data0 = e.curSz, "len(Data(0)) is not the capacity")
   \cup (IF k = "raw" \/ e.vpanic THEN {}
         ELSE Flag(e.chain = (IF w = <<>> THEN <<<<0, 0>>>> ELSE w), "Slice chain (with empty slices) differs from the design")
         \cup Flag(e.offs = Offs(w), "SliceOffsets differs from the design"))
